@@ -67,8 +67,168 @@ type verifCapsCtx struct {
 	next    int
 	seq     int
 	notify  chan struct{}
-	expired *int32 // a watchdog fired in this test process: later watchdogs are short
-	tickFn  func() // Pool with maxAge: moves the virtual clock between steps
+	expired *int32          // a watchdog fired in this test process: later watchdogs are short
+	tickFn  func()          // Pool with maxAge: moves the virtual clock between steps
+	clk     *verifCapsClock // primitives whose waits carry a deadline: the clock the library reads (set by the adapter)
+	advance func(d int)     // schedules with an explicit clock (SemGenTimed, PoolGen): moves the adapter's clock by d units
+	// a second acquisition started from inside a user callback that the library runs in the middle of the first
+	// one (Pool create / destroy): armed by the engine for one step, taken by Callback
+	intrArmed bool
+	intrTk    *verifCapsTicket
+	stress    bool
+	cbN       int32
+}
+
+// verifCapsClock is the clock a primitive with timed waits reads (the adapter installs Now as
+// hook H1, timex.VerifNow).  Free-running it follows real time plus an offset that Jitter bumps
+// (stress: a waiter can find its deadline passed when it is woken).  Frozen (schedules of
+// SemGenTimed) it only moves by the schedule's tick steps, and the engine can `arm` it: the
+// next reading -- that of a waiter that has just been woken, nobody else reads the clock at
+// that point of a sequential schedule -- is logged as `wake` and, if asked, held until the
+// engine has let a third party take the permit.  It knows nothing about permits.
+type verifCapsClock struct {
+	mu     sync.Mutex
+	c      *verifCapsCtx
+	frozen bool
+	base   time.Time
+	off    time.Duration
+	unit   time.Duration // one tick of a schedule
+	park   time.Duration // the timeout of a parked borrow (set by the adapter)
+	calls  int           // readings so far
+	armed  bool
+	hold   bool
+	held   bool // a reading is being held
+	passed int  // armed readings seen
+	gate   chan struct{}
+	bumped time.Time
+}
+
+var verifCapsClockUnread int32
+
+func verifCapsNewClock(c *verifCapsCtx, park time.Duration) *verifCapsClock {
+	return &verifCapsClock{c: c, base: time.Now(), park: park, gate: make(chan struct{})}
+}
+
+func (k *verifCapsClock) value() time.Duration {
+	if k.frozen {
+		return k.off
+	}
+	return time.Since(k.base) + k.off
+}
+
+// Now is what the library sees.
+func (k *verifCapsClock) Now() time.Duration {
+	k.mu.Lock()
+	k.calls++
+	if !k.armed {
+		v := k.value()
+		k.mu.Unlock()
+		k.c.poke()
+		return v
+	}
+	k.armed = false
+	k.passed++
+	hold, g := k.hold, k.gate
+	units := 0
+	if k.unit > 0 {
+		units = int(k.off / k.unit)
+	}
+	k.held = hold
+	k.mu.Unlock()
+	k.c.Emit(verifEv{"e": "wake", "clk": units, "held": hold})
+	k.c.poke()
+	if hold {
+		<-g
+	}
+	k.mu.Lock()
+	k.held = false
+	v := k.value()
+	k.mu.Unlock()
+	k.c.poke()
+	return v
+}
+
+func (k *verifCapsClock) freeze(t int) {
+	k.mu.Lock()
+	k.frozen = true
+	k.unit = k.park / time.Duration(t)
+	k.mu.Unlock()
+}
+
+func (k *verifCapsClock) advance(d time.Duration) {
+	k.mu.Lock()
+	k.off += d
+	k.mu.Unlock()
+}
+
+func (k *verifCapsClock) arm(hold bool) {
+	k.mu.Lock()
+	k.armed, k.hold = true, hold
+	k.mu.Unlock()
+}
+
+// letGo disarms the clock and releases a held reading.
+func (k *verifCapsClock) letGo() {
+	k.mu.Lock()
+	k.armed = false
+	close(k.gate)
+	k.gate = make(chan struct{})
+	k.mu.Unlock()
+}
+
+func (k *verifCapsClock) snapshot() (calls, passed int, held bool) {
+	k.mu.Lock()
+	defer k.mu.Unlock()
+	return k.calls, k.passed, k.held
+}
+
+// Jitter (stress): now and then the clock jumps far ahead, so that whoever is parked then
+// finds its deadline passed when it is woken.
+func (k *verifCapsClock) Jitter() {
+	k.mu.Lock()
+	if time.Since(k.bumped) > 300*time.Microsecond {
+		k.bumped = time.Now()
+		k.off += time.Second
+	}
+	k.mu.Unlock()
+}
+
+// Callback is called by an adapter from inside a callback the library hands to user code in the middle
+// of an acquisition.  Callbacks may be slow: if the engine asked for it, another acquisition is started
+// right here and given a moment before the callback returns (a correct library makes it wait or serves it
+// consistently; either way the events tell).  In stress runs the callback yields a few times.
+func (c *verifCapsCtx) Callback() {
+	c.mu.Lock()
+	armed := c.intrArmed
+	c.intrArmed = false
+	c.mu.Unlock()
+	if !armed {
+		if c.stress {
+			for i := int(atomic.AddInt32(&c.cbN, 1) % 4); i > 0; i-- {
+				runtime.Gosched()
+			}
+		}
+		return
+	}
+	tk := c.newTicket(0)
+	c.mu.Lock()
+	c.intrTk = tk
+	c.mu.Unlock()
+	c.run(tk, "block")
+	poll := func(d time.Duration, pred func() bool) {
+		end := time.Now().Add(d)
+		for {
+			c.mu.Lock()
+			ok := pred()
+			c.mu.Unlock()
+			if ok || time.Now().After(end) {
+				return
+			}
+			time.Sleep(50 * time.Microsecond)
+		}
+	}
+	poll(2*time.Second, func() bool { return tk.start })
+	poll(c.grace(), func() bool { return tk.status != verifCapsNew })
 }
 
 func (c *verifCapsCtx) tickClock() {
@@ -236,18 +396,24 @@ func (c *verifCapsCtx) open(tk *verifCapsTicket, how string) {
 }
 
 type verifCapsOp struct {
-	Op   string `json:"op"`
-	Mode string `json:"mode"`
-	X    string `json:"x"`
-	K    int    `json:"k"`
-	How  string `json:"how"`
-	W    int    `json:"w"`
+	Op    string `json:"op"`
+	Mode  string `json:"mode"`
+	X     string `json:"x"`
+	K     int    `json:"k"`
+	How   string `json:"how"`
+	W     int    `json:"w"`
+	D     int    `json:"d"`     // tick: clock units
+	Steal int    `json:"steal"` // exit that wakes a timed waiter: a third party takes the permit first
+	Intr  int    `json:"intr"`  // acq: another acquisition arrives while a callback of this one is running
+	X2    string `json:"x2"`    // ... what the abstract pool predicts for it
+	Rem   *int   `json:"rem"`   // ... the abstract semaphore's deadline - now at that moment (information)
 }
 
 type verifCapsSchedule struct {
 	Kind string        `json:"kind"`
 	N    int           `json:"n"`
 	Age  int           `json:"age"`
+	T    int           `json:"t"` // > 0: schedule of SemGenTimed, timeout of a parked borrow in clock units
 	Ops  []verifCapsOp `json:"ops"`
 }
 
@@ -267,11 +433,50 @@ func (c *verifCapsCtx) replay(ops []verifCapsOp, tickFn func()) {
 		switch op.Op {
 		case "acq":
 			tk := c.newTicket(0)
+			if op.X == "park" && c.clk != nil {
+				// a borrow whose timeout outlasts the schedule: wait until it has read the clock (the
+				// beginning of its wait), then give it the time to reach the select behind that reading
+				c0, _, _ := c.clk.snapshot()
+				c.run(tk, "park")
+				d := 2 * time.Second
+				if atomic.LoadInt32(&verifCapsClockUnread) > 0 {
+					d = c.grace() // this library does not read the clock when it parks: do not wait for it again
+				}
+				if !c.wait(d, func() bool {
+					n, _, _ := c.clk.snapshot()
+					return tk.status != verifCapsNew || n > c0
+				}) {
+					atomic.AddInt32(&verifCapsClockUnread, 1)
+				}
+				c.wait(c.grace(), func() bool { return tk.status != verifCapsNew })
+				continue
+			}
+			if op.Intr == 1 {
+				c.mu.Lock()
+				c.intrArmed, c.intrTk = true, nil
+				c.mu.Unlock()
+			}
 			c.run(tk, op.Mode)
 			if op.X == "blk" {
 				c.wait(c.grace(), func() bool { return tk.status != verifCapsNew })
 			} else {
 				c.wait(2*time.Second, func() bool { return tk.status != verifCapsNew })
+			}
+			if op.Intr == 1 {
+				c.mu.Lock()
+				c.intrArmed = false
+				it := c.intrTk
+				c.mu.Unlock()
+				if it == nil {
+					// no callback ran: the second acquisition simply comes afterwards
+					it = c.newTicket(0)
+					c.run(it, op.Mode)
+				}
+				if op.X2 == "blk" {
+					c.wait(c.grace(), func() bool { return it.status != verifCapsNew })
+				} else {
+					c.wait(2*time.Second, func() bool { return it.status != verifCapsNew })
+				}
 			}
 		case "exit":
 			c.mu.Lock()
@@ -282,8 +487,48 @@ func (c *verifCapsCtx) replay(ops []verifCapsOp, tickFn func()) {
 			}
 			tk := hs[op.K]
 			before := len(hs)
+			timed := op.Rem != nil && c.clk != nil
+			p0 := 0
+			if timed {
+				// the release is going to wake a parked waiter: its next reading of the clock is logged
+				// and (steal) held
+				c.clk.arm(op.Steal == 1)
+				_, p0, _ = c.clk.snapshot()
+			}
 			c.open(tk, op.How)
 			c.wait(2*time.Second, func() bool { return c.settled(tk) })
+			if timed {
+				noneNew := func() bool {
+					for _, x := range c.order {
+						if x.status == verifCapsNew {
+							return false
+						}
+					}
+					return true
+				}
+				// the signal has been sent; if it found nobody (Signal is lossy) the waiter leaves by its timer
+				c.wait(2*time.Second, func() bool {
+					_, p, _ := c.clk.snapshot()
+					return p > p0 || noneNew()
+				})
+				_, _, held := c.clk.snapshot()
+				if held {
+					// the woken waiter is between its wake-up and its second attempt: a third party takes the permit
+					thief := c.newTicket(0)
+					c.run(thief, "try")
+					c.wait(2*time.Second, func() bool { return thief.status != verifCapsNew })
+				}
+				c0, _, _ := c.clk.snapshot()
+				c.clk.letGo()
+				if held {
+					// it goes on: admitted, gives up, or parks again (one more reading, then the select)
+					c.wait(2*time.Second, func() bool {
+						n, _, _ := c.clk.snapshot()
+						return n > c0 || noneNew()
+					})
+					c.wait(c.grace(), noneNew)
+				}
+			}
 			if op.W == 1 {
 				// a blocked ticket is expected to take the place (unless it has given up meanwhile)
 				c.wait(2*time.Second, func() bool {
@@ -300,6 +545,11 @@ func (c *verifCapsCtx) replay(ops []verifCapsOp, tickFn func()) {
 			}
 		case "over":
 			c.over()
+		case "tick":
+			if c.advance != nil {
+				c.advance(op.D)
+				c.Emit(verifEv{"e": "tick", "d": op.D})
+			}
 		}
 	}
 }
@@ -328,6 +578,9 @@ func (c *verifCapsCtx) drain(overAfter bool) bool {
 			}
 		}
 		return pend
+	}
+	if c.clk != nil {
+		c.clk.letGo()
 	}
 	// tickets that get in later find their gate open already
 	c.mu.Lock()
@@ -407,6 +660,9 @@ func (c *verifCapsCtx) probe() {
 
 // finish lets everybody go, ends the library call and logs the releases that are only now known.
 func (c *verifCapsCtx) finish(mine []*verifCapsTicket) {
+	if c.clk != nil {
+		c.clk.letGo()
+	}
 	c.mu.Lock()
 	for _, tk := range c.order {
 		c.open(tk, "ret")
@@ -450,6 +706,13 @@ func verifCapsReplayAll(t *testing.T, mk func(c *verifCapsCtx, kind string, n in
 			t.Fatalf("unknown kind %q", s.Kind)
 		}
 		c.ad = ad
+		if s.T > 0 {
+			// the schedule moves the clock itself (tick steps)
+			tickFn = nil
+			if c.clk != nil {
+				c.clk.freeze(s.T)
+			}
+		}
 		c.tickFn = tickFn
 		em.Emit(verifEv{"e": "reset", "kind": ad.Kind(), "n": s.N})
 		c.replay(s.Ops, tickFn)
@@ -489,6 +752,7 @@ func verifCapsStressAll(t *testing.T, kinds []string, mk func(c *verifCapsCtx, k
 			ad, tickFn, cleanup := mk(c, kind, n, age)
 			c.ad = ad
 			c.tickFn = tickFn
+			c.stress = true
 			em.Emit(verifEv{"e": "reset", "kind": ad.Kind(), "n": n})
 			var modes []string
 			for _, m := range []string{"try", "block", "timeout"} {
@@ -515,6 +779,9 @@ func verifCapsStressAll(t *testing.T, kinds []string, mk func(c *verifCapsCtx, k
 			}
 			var wg sync.WaitGroup
 			stopTick := make(chan struct{})
+			if tickFn == nil && c.clk != nil {
+				tickFn = c.clk.Jitter
+			}
 			if tickFn != nil {
 				go func() {
 					for {
